@@ -121,7 +121,7 @@ func ToScalar(tv *pb.TypedValue) (interface{}, error) {
 		for x, e := range elems {
 			v, err := ToScalar(e)
 			if err != nil {
-				return nil, fmt.Errorf("ToScalar for ScalarArray %+v: %v", e.Value, err)
+				return nil, fmt.Errorf("ToScalar for ScalarArray %+v: %v", e.GetValue(), err)
 			}
 			ss[x] = v
 		}
@@ -149,7 +149,7 @@ func ToScalar(tv *pb.TypedValue) (interface{}, error) {
 		}
 		return uVal, nil
 	default:
-		return nil, fmt.Errorf("non-scalar type %+v", tv.Value)
+		return nil, fmt.Errorf("non-scalar type %+v", tv.GetValue())
 	}
 	return i, nil
 }
@@ -157,7 +157,7 @@ func ToScalar(tv *pb.TypedValue) (interface{}, error) {
 // decimalToFloat converts a *gnmi_proto.Decimal64 to a float32. Downcasting to
 // float32 is performed as the precision of a float64 is not required.
 func decimalToFloat(d *pb.Decimal64) float32 {
-	return float32(float64(d.Digits) / math.Pow(10, float64(d.Precision)))
+	return float32(float64(d.GetDigits()) / math.Pow(10, float64(d.GetPrecision())))
 }
 
 // Equal returns true if the values in a and b are the same.  This method
